@@ -67,6 +67,32 @@ func gen(g *common.Gen) {
 			g.Op("new")
 			g.Stat("hmac-keylen-sweep")
 		}
+		// … one where a shipped signer (cycling through all of them) signs a LONG signed portion: just
+		// above 8800 octets (the NDN packet size, a tempting scratch-buffer size) and well above it
+		{
+			all := []string{"sha", "hmac", "ecc", "rsa", "hmaccert", "ecccert", "rsacert", "shaint", "hmacint", "eccint", "rsaint", "ecc521", "eccint384", "hmacint~65"}
+			sizes := []int{8795, 9000, 20000, 70000}
+			tok := all[i%len(all)]
+			k := (i / len(all)) % len(sizes)
+			for _, n := range []int{sizes[k], sizes[(k+2)%len(sizes)]} {
+				asInterest := strings.HasSuffix(c03.SigBase(tok), "int") || strings.HasPrefix(c03.SigBase(tok), "eccint") ||
+					(k%2 == 1 && !strings.Contains(tok, "cert"))
+				payload := common.Hex(r.Bytes(n))
+				if r.Chance(1, 2) { // or as two buffers
+					payload = common.Hex(r.Bytes(n/2)) + "," + common.Hex(r.Bytes(n-n/2))
+				}
+				bm := "mkd /8:61 - - - " + payload + " " + tok
+				if asInterest {
+					bm = "mki /8:61 0 0 - - - - " + payload + " " + tok
+				}
+				g.Op("%s", bm)
+				g.Op("val c")
+				g.Op("val own")
+				g.Op("cmp")
+				g.Op("new")
+				g.Stat("long-signed-portion")
+			}
+		}
 		// … and one where a shipped signer (cycling through all of them) is used by 4 goroutines at once
 		{
 			all := []string{"shaint", "hmacint", "eccint", "rsaint", "sha", "hmac", "ecc", "rsa", "hmaccert", "ecccert", "eccint521", "ecc384", "hmacint~65", "ecc224"}
